@@ -127,14 +127,14 @@ theorem TokFresh.argFresh (h : TokFresh s ops inp) : ArgFresh (tokGuard s) ops i
 
 variable {tbl : Table} {cfg : TagCfg}
 
-/-- **`parse_args_valid`, token-part ranges.** Every table with `WfTable`, certificate and `EmitsChecked`;
+/-- **`parse_args_valid_tok` (token-part ranges only; `Lemmas/ArgsValidRaw.lean` adds the attribute raw ranges).** Every table with `WfTable`, certificate and `EmitsChecked`;
 EVERY sink `ops` (no hypothesis on its answers beyond `TokFresh`: it does not itself report the guard's error
 on a valid lexeme); every input, `last` flag and parser state with the C15 invariants (`PInv` at the trivial
 watermark, `PTok`): `Parser.parse` over the sink guarded by `tokGuard s` IS `Parser.parse` over `ops` — every
 lexeme handed to `handle_tag` / `handle_non_tag_content` during the call has its raw range, tag-name range,
 attribute name / value ranges, comment-text range inside the input; the call does not return `.panic s`; and
 if it succeeds the invariants hold again for what is retained. -/
-theorem parse_args_valid {cert : Cert} (hw : Wf tbl) (hchk : checkCert tbl cert = true) (ht : EmitsChecked tbl = true)
+theorem parse_args_valid_tok {cert : Cert} (hw : Wf tbl) (hchk : checkCert tbl cert = true) (ht : EmitsChecked tbl = true)
     (hs : T2 s) (hf : TokFresh s ops inp) (last : Bool) (p : Parser κ)
     (hp : PInv tbl inp.length (fun _ => 0) p) (htp : PTok tbl cert p) :
     Parser.parse ⟨tbl, cfg, guardArgs (tokGuard s) ops⟩ inp last p = Parser.parse ⟨tbl, cfg, ops⟩ inp last p ∧
